@@ -140,8 +140,9 @@ func (d *IPv6Defragmenter) DefragIPv6(ipv6 *layers.IPv6, fg *layers.IPv6Fragment
 			ok = true
 			break
 		}
-		// need more, but no next one or next one is not the next
-		if f.next == nil || f.offset+uint16(len(f.payload)/8) != f.next.offset {
+		// need more, but no next one or next one is not the next;
+		// a fragment that is not the last carries a multiple of 8 bytes (RFC 8200, 4.5)
+		if f.next == nil || len(f.payload)%8 != 0 || f.offset+uint16(len(f.payload)/8) != f.next.offset {
 			break
 		}
 		// continue
